@@ -191,7 +191,11 @@ def resampler(ctx, scheme):
         w = fresh_arr((N,), "real", "weights")
         q = z3.Int("q!w")
         st.assume(z3.ForAll([q], z3.Implies(z3.And(q >= 0, q < N), w.at(q) >= 0)))
-        st.assume(sums.total(st, w) == 1)   # postcondition of Reweighter._finalize_iteration (C05) + L-SUM-lin
+        # postcondition of Reweighter._finalize_iteration (C05): weights / sum(weights).  In exact arithmetic the total is 1; the
+        # contract only grants numpy's own tolerance band (what a rounded normalisation satisfies), so a draw routine that needs
+        # the total to be *exactly* 1 (e.g. searchsorted on the cumulative sum) does not verify
+        S_ = sums.total(st, w)
+        st.assume(z3.And(S_ - 1 <= z3.RealVal(repr(SQRTEPS)), 1 - S_ <= z3.RealVal(repr(SQRTEPS))))
         clus = st.new_obj("HierarchicalGaussianMixture", __module__="abstract")
         rs = st.new_obj("Resampler", __module__=RS, state=sm, n_particles=n, resample=scheme, clusterer=clus,
                         clustering=True, have_blobs=False)
@@ -207,7 +211,7 @@ def resampler(ctx, scheme):
             g.append((f"exactly-n-particles:{k}", to_z3(a.shape[0], "int") == info["n"]))
         return g
 
-    ctx.verify(scheme, RS, "Resampler.run", setup, post, registry=reg,
+    ctx.verify(scheme, RS, "Resampler.run", setup, post, registry=reg, replayer="c06_resampler",
                extras={"numpy.random.choice": h_choice,
                        ("method", "HierarchicalGaussianMixture", "predict"): h_predict})
 
